@@ -414,7 +414,8 @@ H_PFrame(s, r, l) ==
   ELSE IF r.perf = "open" THEN
        (IF s.popen \/ r.ch # 0 THEN R(IllegalW(s1, "second-open"), 0)
         ELSE R([s1 EXCEPT !.popen = TRUE, !.pmfs = Max(r.f.mfs, 512), !.pchmax = r.f.chmax, !.pidle = r.f.idle, !.openAt = r.t], 0))
-  ELSE IF ~s.popen THEN R([Illegal(s1) EXCEPT !.pclose = (@ \/ r.perf = "close")], 0)
+  \* (a close that comes instead of the peer's open -- the peer refuses the connection -- is a close all the same: it is owed an answer)
+  ELSE IF ~s.popen THEN R([Illegal(s1) EXCEPT !.pclose = (@ \/ r.perf = "close"), !.oblClose = (@ \/ (r.perf = "close" /\ s.phdr = "amqp" /\ s.ecloses = 0 /\ ~s.eeof))], 0)
   ELSE IF r.perf = "close" THEN R([s1 EXCEPT !.pclose = TRUE, !.pcloseErr = r.f.err, !.pcloseHeard = TRUE, !.oblClose = TRUE, !.deadAt = IF @ = 0 THEN l ELSE @], 0)
   ELSE IF s.pclose THEN R(s1, 0)          \* nothing is expected of frames after the peer's close
   ELSE CASE r.perf = "begin" -> H_PBegin(s1, r, l)
@@ -681,6 +682,8 @@ Step(s, r, l) ==
                             Chk("C12_WaitsForPeerClose", s.ecloses = 0 \/ ~s.ecloseErr \/ ~s.popen \/ s.pclose \/ s.pcloseHeard \/ s.peof \/ s.garbage \/ s.timedOut \/ s.lidle > 0, l, "")
                             \* the endpoint hangs up on an open connection (no close exchanged) only for a reason; deliveries that had arrived, or were
                             \* arriving, on a receiving link are lost to the application with it
+                            \* the peer's close is answered with a close, not by hanging up (unless the peer's side of the stream is gone or unreadable)
+                          + Chk("C12_CloseReply", ~s.oblClose \/ s.peof \/ s.garbage, l, "eof-instead-of-close")
                           + Chk("C12_NoSpontaneousError", s.ecloses > 0 \/ ~ConnUp(s) \/ s.illegal \/ s.garbage \/ s.noise \/ s.appTeardown \/ s.lidle > 0 \/ s.timedOut, l, "eof")
                           + Chk("C10_NoSpuriousError", s.ecloses > 0 \/ ~ConnUp(s) \/ s.illegal \/ s.garbage \/ s.noise \/ s.appTeardown \/ s.lidle > 0 \/ s.timedOut
                                                        \/ ~\E k \in DOMAIN s.ls : ~s.ls[k].eutSender /\ LinkLiveE(s.ls[k]) /\ (s.ls[k].inq # <<>> \/ s.ls[k].pInDel), l, "transport-dropped-by-endpoint"))
